@@ -71,6 +71,27 @@ def _z3model_from_cvc5(assertions, out):
             c = consts[nm]
             iv = int(v[2:], 16) if v[1] == 'x' else int(v[2:], 2)
             s2.add(c == z3.BitVecVal(iv, c.size()))
+    # floating-point constants: (define-fun x () (_ FloatingPoint e s) (fp #b. #b... #b...)) or special values
+    fps = {}
+    seen = set(); todo = list(assertions)
+    while todo:
+        x = todo.pop()
+        if x.get_id() in seen: continue
+        seen.add(x.get_id())
+        if z3.is_const(x) and x.decl().kind() == z3.Z3_OP_UNINTERPRETED and z3.is_fp(x): fps[str(x)] = x
+        todo.extend(x.children())
+    for m_ in re.finditer(r'\(define-fun\s+(\S+)\s+\(\)\s+\(_ FloatingPoint (\d+) (\d+)\)\s+(\(fp (#b[01]+) (#b[01]+) (#b[01]+)\)|\(_ ([+-]?\w+) \d+ \d+\))\)', out):
+        nm = m_.group(1).strip('|')
+        if nm not in fps: continue
+        c = fps[nm]; srt = c.sort()
+        if m_.group(5):
+            sg, ex, mn = m_.group(5)[2:], m_.group(6)[2:], m_.group(7)[2:]
+            s2.add(z3.fpToIEEEBV(c) == z3.BitVecVal(int(sg + ex + mn, 2), len(sg + ex + mn)))
+        else:
+            k = m_.group(8)
+            val = {'+oo': z3.fpPlusInfinity(srt), '-oo': z3.fpMinusInfinity(srt), 'NaN': z3.fpNaN(srt), '+zero': z3.fpPlusZero(srt), '-zero': z3.fpMinusZero(srt)}.get(k)
+            if val is not None and k != 'NaN': s2.add(z3.fpToIEEEBV(c) == z3.fpToIEEEBV(val))
+            elif k == 'NaN': s2.add(z3.fpIsNaN(c))
     return s2.model() if s2.check() == z3.sat else None
 
 
@@ -80,7 +101,7 @@ def solve(assertions, timeout_s=60, z3_first_s=None, tactic=None):
     t0 = time.time()
     info = {'solver': 'z3'}
     feats = logic_features(assertions)
-    use_cvc5 = feats['bv'] and not (feats['fp'] or feats['real'] or feats['int']) and os.path.exists(CVC5)
+    use_cvc5 = (feats['bv'] or feats['fp']) and not (feats['real'] or feats['int'] or (feats['fp'] and feats['array'])) and os.path.exists(CVC5)
     sol = z3.Solver() if tactic is None else z3.Tactic(tactic).solver()
     sol.add(*assertions)
     # quick attempt with z3 alone
@@ -92,11 +113,12 @@ def solve(assertions, timeout_s=60, z3_first_s=None, tactic=None):
         info['reason'] = sol.reason_unknown(); return 'unknown', None, info
     # concurrent phase
     s0 = z3.Solver(); s0.add(*assertions)
-    smt2 = '(set-logic %s)\n(set-option :produce-models true)\n' % ('QF_ABV' if feats['array'] else 'QF_BV') + s0.sexpr() + '\n(check-sat)\n(get-model)\n'
+    logic = 'QF_BVFP' if feats['fp'] else ('QF_ABV' if feats['array'] else 'QF_BV')
+    smt2 = '(set-logic %s)\n(set-option :produce-models true)\n' % logic + s0.sexpr() + '\n(check-sat)\n(get-model)\n'
     wd = os.environ.get('VERIF_WORK', '/verif/.work')
     fd, path = tempfile.mkstemp(suffix='.smt2', dir=wd if os.path.isdir(wd) else None); os.write(fd, smt2.encode()); os.close(fd)
     left = max(2.0, timeout_s - (time.time() - t0))
-    proc = subprocess.Popen([CVC5, '--tlimit=%d' % int(left * 1000), '--solve-bv-as-int=sum', path], stdout=subprocess.PIPE, stderr=subprocess.PIPE, text=True)
+    proc = subprocess.Popen([CVC5, '--tlimit=%d' % int(left * 1000)] + ([] if feats['fp'] else ['--solve-bv-as-int=sum']) + [path], stdout=subprocess.PIPE, stderr=subprocess.PIPE, text=True)
     STATS['cvc5_calls'] += 1
     import threading
     done = {}
@@ -125,7 +147,7 @@ def solve(assertions, timeout_s=60, z3_first_s=None, tactic=None):
         th.join(timeout=max(0.0, timeout_s - (time.time() - t0)) + 1)
         v = done.get('verdict'); info['cvc5'] = v or 'unknown'
         if v == 'unsat':
-            STATS['cvc5'] += 1; info['solver'] = 'cvc5 --solve-bv-as-int=sum'; return 'unsat', None, info
+            STATS['cvc5'] += 1; info['solver'] = 'cvc5' + ('' if feats['fp'] else ' --solve-bv-as-int=sum'); return 'unsat', None, info
         if v == 'sat':
             m = _z3model_from_cvc5(assertions, done['out'])
             if m is not None:
